@@ -16,7 +16,7 @@ package dpos
 //
 // Input ($VERIF_IN): one JSON scenario per line
 //   {"n":4,"nodes":2,"self":[0,2],"ops":[["B",id,parent,bp,confirms],["D",node,id],
-//    ["S",node],["R",node],["G",node,[bp...]]]}
+//    ["S",node],["R",node],["G",node,[bp...]],["F",node,resetHeight] (shadow),["FR",node,resetHeight] (real)]}
 // Output ($VERIF_OUT): one JSON line per scenario: {"obs":[...]} one entry per D/S/R/G op.
 import (
 	"bufio"
@@ -80,6 +80,10 @@ type c08Obs struct {
 	VtsOK     bool  `json:"vts_ok"`      // DPoS.VerifyTimestamp(block) for D ops
 	NeedReorg int   `json:"need_reorg"`  // -1 not asked, 0 refused, 1 allowed
 	RootNo    int64 `json:"root_no"`
+	// "F" ops: LIB height of the running node before the shadow reset, and the number of fork points
+	// f below it for which the reset status' NeedReorganization(f) allows a reorganisation
+	PrevLibNo  int64 `json:"prev_lib_no"`
+	AllowBelow int   `json:"allow_below"`
 }
 
 // ---- in-memory consensus.ChainDB
@@ -543,13 +547,45 @@ func TestVerifC08Engine(t *testing.T) {
 				}
 				cdb := &c08CDB{byNo: nd.cdb.byNo, byHash: nd.cdb.byHash, best: nd.cdb.best, kv: kv}
 				fresh := &c08Node{n: nd.n, self: nd.self, cdb: cdb, sdb: nd.sdb}
+				pre := w.snapshot(nd)
 				w.newStatusReset(fresh, types.BlockNo(geti(2)))
 				w.observe(fresh, &o)
+				o.PrevLibNo = int64(pre.LibNo)
+				for f := types.BlockNo(0); f < types.BlockNo(pre.LibNo); f++ {
+					if fresh.st.NeedReorganization(f) {
+						o.AllowBelow++
+					}
+				}
 				if len(kv[string(dbkey.DposLibStatus())]) > 0 {
 					o.NeedReorg = 1 // saved status kept
 				} else {
 					o.NeedReorg = 0 // deleted
 				}
+				obs = append(obs, o)
+			case "FR":
+				// REAL restart with ForceResetHeight h: the chain DB drops every main-chain block above h
+				// (the block at h becomes the best block), then NewStatus(..., h) boots from the saved
+				// status; the node goes on with the reset chain and status
+				nd := nodes[geti(1)]
+				rh := uint64(geti(2))
+				o := c08Obs{Op: "FR", Node: geti(1), NeedReorg: -1, RootNo: -1, Res: "reset"}
+				pre := w.snapshot(nd)
+				if rh > 0 && rh < nd.cdb.best.BlockNo() {
+					for no := rh + 1; no <= nd.cdb.best.BlockNo(); no++ {
+						delete(nd.cdb.byNo, no)
+					}
+					nd.cdb.best = nd.cdb.byNo[rh]
+				}
+				fresh := &c08Node{n: nd.n, self: nd.self, cdb: nd.cdb, sdb: nd.sdb}
+				w.newStatusReset(fresh, types.BlockNo(rh))
+				w.observe(fresh, &o)
+				o.PrevLibNo = int64(pre.LibNo)
+				for f := types.BlockNo(0); f < types.BlockNo(pre.LibNo); f++ {
+					if fresh.st.NeedReorganization(f) {
+						o.AllowBelow++
+					}
+				}
+				nodes[geti(1)] = fresh
 				obs = append(obs, o)
 			case "G":
 				nd := nodes[geti(1)]
